@@ -1,3 +1,4 @@
 import XV.Props.C10
 import XV.Props.C17
 import XV.Props.C19
+import XV.Props.C20
